@@ -147,7 +147,7 @@ def from_wire(v):
 
 def show(v):
     if isinstance(v, Decimal):
-        return str(v)
+        return format(v, "f") if v.is_finite() and abs(v.as_tuple().exponent) < 60 else str(v)
     if isinstance(v, list):
         return "[" + ", ".join(show(x) for x in v) + "]"
     if isinstance(v, dict):
@@ -1067,7 +1067,7 @@ def run(ctx):
     for f in sorted(ref.FUNCS):
         if ctx.stop():
             break
-        n = ctx.scale(3500 if f in HEAVY else 2000, 40000 if f in HEAVY else 20000)
+        n = ctx.scale(6000 if f in HEAVY else 3500, 60000 if f in HEAVY else 35000)
         ctx.forall(ctx.fparts[f], n)
 
 
